@@ -17,6 +17,8 @@ pub struct CountingAlloc;
 
 thread_local! {
     static LIVE: Cell<isize> = const { Cell::new(0) };
+    /// cumulative bytes requested on this thread (a deterministic cost proxy)
+    static TOTAL: Cell<u64> = const { Cell::new(0) };
 }
 
 unsafe impl GlobalAlloc for CountingAlloc {
@@ -24,6 +26,7 @@ unsafe impl GlobalAlloc for CountingAlloc {
         let p = System.alloc(l);
         if !p.is_null() {
             let _ = LIVE.try_with(|c| c.set(c.get() + l.size() as isize));
+            let _ = TOTAL.try_with(|c| c.set(c.get() + l.size() as u64));
         }
         p
     }
@@ -42,6 +45,7 @@ unsafe impl GlobalAlloc for CountingAlloc {
         let q = System.realloc(p, l, new);
         if !q.is_null() {
             let _ = LIVE.try_with(|c| c.set(c.get() + new as isize - l.size() as isize));
+            let _ = TOTAL.try_with(|c| c.set(c.get() + new as u64));
         }
         q
     }
@@ -49,6 +53,10 @@ unsafe impl GlobalAlloc for CountingAlloc {
 
 pub fn live() -> isize {
     LIVE.with(|c| c.get())
+}
+
+pub fn total_allocated() -> u64 {
+    TOTAL.with(|c| c.get())
 }
 
 /// build a generator, run the history, drop everything; returns live-bytes delta. Outputs are
@@ -129,6 +137,22 @@ fn classify(sc: &Scenario) -> &'static str {
 
 pub fn c14(sc: &Scenario, stats: &mut Stats) -> Vec<Violation> {
     crate::engine::tick();
+    // steering recipes are resolved first (outside the measured window)
+    let resolved;
+    let sc = if sc.steer.is_some() {
+        match crate::exec::resolve_steer(sc) {
+            Some(r) => {
+                resolved = r;
+                &resolved
+            }
+            None => {
+                stats.bump("steer.not_offered_by_the_generator");
+                return vec![];
+            }
+        }
+    } else {
+        sc
+    };
     let mut v = vec![];
     // first execution = warm-up (one-time lazy initialisation can never be mistaken for a leak)
     if probe(sc, 1).is_none() {
